@@ -5,6 +5,8 @@ import Sqfs.Model.MetaWriter
 import Sqfs.Model.IdTable
 import Sqfs.Model.Finish
 import Sqfs.Model.Numbering
+import Sqfs.Model.C03FsDir
+import Sqfs.Model.C03Inode
 /-!
 `sqfsmodel c03 <mode>`
 
@@ -37,10 +39,20 @@ def toyCodec : Codec := fun x =>
 def growCodec : Codec := fun x =>
   if 0 < x.length ∧ x.length < 13 then some (UInt8.ofNat (x.length * 16) :: x) else none
 
+/-- content dependent, invertible: a trailing run of 4..65535 equal bytes becomes [byte, run lo, run hi] -/
+def trailCodec : Codec := fun x =>
+  match x.reverse with
+  | [] => none
+  | c :: _ =>
+    let k := (x.reverse.takeWhile (· == c)).length
+    if k < 4 ∨ k > 65535 then none
+    else some (x.take (x.length - k) ++ [c, UInt8.ofNat (k % 256), UInt8.ofNat (k / 256)])
+
 def codecByName : String → Option Codec
   | "raw" => some rawCodec
   | "toy" => some toyCodec
   | "grow" => some growCodec
+  | "trail" => some trailCodec
   | _ => none
 
 def parseEntConseq (tok : String) : Option DEnt :=
@@ -74,31 +86,79 @@ def addAllEntries (old : Bool) : List (List UInt8 × Nat × Nat × Nat) → Nat 
     | .unsupported => .error s!"err -{errUnsupported} at {i}"
     | .argInvalid => .error s!"err -{errArgInvalid} at {i}"
 
+/-- the `sqfs_meta_writer_append` calls the harness makes to put `n` filler bytes in front (chunks of at most 8 KiB) -/
+def prefill (cmp : Codec) (fill : UInt8) : Nat → Nat → St → St
+  | 0, _, st => st
+  | f + 1, n, st => if n = 0 then st else
+      let k := min n 8192
+      prefill cmp fill f (n - k) (append cmp st (List.replicate k fill))
+
+def le16b (v : Nat) : List UInt8 := [UInt8.ofNat (v % 256), UInt8.ofNat (v / 256 % 256)]
+
+def le64b (v : Nat) : List UInt8 :=
+  le16b (v % 65536) ++ le16b (v / 65536 % 65536) ++ le16b (v / 4294967296 % 65536) ++ le16b (v / 281474976710656 % 65536)
+
+def blocksBytes (bs : List Block) : List UInt8 := (bs.map (fun b => le16b b.header ++ b.stored)).flatten
+
+def inodeText (ino : DirInode) : String :=
+  if ino.ext then
+    let idx := if ino.index.isEmpty then "-" else
+      ",".intercalate (ino.index.map (fun (i, b, n) => s!"{i};{b};{toHexTok n}"))
+    s!"inode=ext {ino.nlink} {ino.size} {ino.startBlock} {ino.offset} {ino.parent} {ino.xattr} n={ino.index.length % 65536} idx={idx}"
+  else
+    s!"inode=basic {ino.nlink} {ino.size} {ino.startBlock} {ino.offset} {ino.parent} idx=-"
+
 def opDirw (old : Bool) (off0 hlinks xattr parent : Nat) (ents : List (List UInt8 × Nat × Nat × Nat)) : String :=
   match addAllEntries old ents 0 [] with
   | .error e => e
   | .ok es =>
-    let (blk, off) := advance 8194 0 0 off0
-    let runs := dirEnd 8194 blk off es
+    let st0 := prefill rawCodec 0 (off0 + 1) off0 {}
+    let (runs, _) := dirEndM rawCodec st0 es
     let bytes := (runs.map encodeRun).flatten
-    let ref := (blk <<< 16) ||| off
+    let ref := dirRefOf st0
     let ino := createInodeCap (if old then none else some maxIndex) ref runs es.length hlinks xattr parent
-    let head := s!"ok {toHexTok bytes} size={dirSizeOf runs} ref={ref} count={es.length}"
-    if ino.ext then
-      let idx := if ino.index.isEmpty then "-" else
-        ",".intercalate (ino.index.map (fun (i, b, n) => s!"{i};{b};{toHexTok n}"))
-      s!"{head} inode=ext {ino.nlink} {ino.size} {ino.startBlock} {ino.offset} {ino.parent} {ino.xattr} n={ino.index.length % 65536} idx={idx}"
-    else
-      s!"{head} inode=basic {ino.nlink} {ino.size} {ino.startBlock} {ino.offset} {ino.parent} idx=-"
+    s!"ok {toHexTok bytes} size={dirSizeOf runs} ref={ref} count={es.length} {inodeText ino}"
 
-def le16b (v : Nat) : List UInt8 := [UInt8.ofNat (v % 256), UInt8.ofNat (v / 256 % 256)]
+/-- `dirx`: the dir writer on a meta writer with a shrinking codec, optionally KEEP_IN_MEMORY, optionally with the
+export table; prints the directory table as it ends up in the file -/
+def opDirx (cmp : Codec) (keep exp : Bool) (off0 hlinks xattr parent rootNum rootRef : Nat)
+    (ents : List (List UInt8 × Nat × Nat × Nat)) : String :=
+  match addAllEntries false ents 0 [] with
+  | .error e => e
+  | .ok es =>
+    let st0 := prefill cmp 0x55 (off0 + 1) off0 {}
+    let (runs, st1) := dirEndM cmp st0 es
+    let ref := dirRefOf st0
+    let ino := createInode ref runs es.length hlinks xattr parent
+    let k : Keep := Keep.flush cmp { st := st1 }
+    let before := if keep then 0 else outBytes k.st.out
+    let k := if keep then k.writeToFile else { st := { k.st with out := [] }, file := k.st.out }
+    let tbl := blocksBytes k.file
+    let expTxt :=
+      if exp then
+        if rootNum < 1 then s!" export=err -{errArgInvalid}" else
+        let t := exportTable (es.map (fun e => (e.inodeNum, e.inodeRef))) rootNum rootRef
+        let w := writeTableM cmp tbl.length (t.map le64b).flatten
+        s!" export start={w.start} {toHexTok (blocksBytes w.blocks ++ (w.locs.map le64b).flatten)}"
+      else ""
+    s!"ok filebefore={before} table={toHexTok tbl} size={dirSizeOf runs} ref={ref} count={es.length} {inodeText ino}{expTxt}"
 
-def blocksBytes (bs : List Block) : List UInt8 := (bs.map (fun b => le16b b.header ++ b.stored)).flatten
+def opTable (cmp : Codec) (base : Nat) (data : List UInt8) : String :=
+  let w := writeTableM cmp base data
+  let locs := if w.locs.isEmpty then "-" else ",".intercalate (w.locs.map toString)
+  s!"start={w.start} locs={locs} file={toHexTok (blocksBytes w.blocks ++ (w.locs.map le64b).flatten)}"
 
 def opMeta (cmp : Codec) (chunks : List (List UInt8)) : String :=
   let st := chunks.foldl (append cmp) {}
   let fin := flush cmp st
   s!"pos={st.blockOffset},{st.cur.length} end={fin.blockOffset},{fin.cur.length} {toHexTok (blocksBytes fin.out)}"
+
+/-- the same on a writer created with KEEP_IN_MEMORY, followed by `sqfs_meta_write_write_to_file` -/
+def opMetaKeep (cmp : Codec) (chunks : List (List UInt8)) : String :=
+  let k := chunks.foldl (Keep.append cmp) {}
+  let fin := k.flush cmp
+  let w := fin.writeToFile
+  s!"pos={k.st.blockOffset},{k.st.cur.length} end={fin.st.blockOffset},{fin.st.cur.length} filebefore={outBytes fin.file} {toHexTok (blocksBytes w.file)}"
 
 def opIds (lim : Nat) (ids : List Nat) (range : Bool) : String :=
   let rec go : List Nat → Nat → List Nat → List Nat → List Nat × List Nat × Option Nat
@@ -113,9 +173,8 @@ def opIds (lim : Nat) (ids : List Nat) (range : Bool) : String :=
   | some k => s!"{head} overflow-at={k}"
   | none =>
     let bytes := (tbl.map (fun v => le16b (v % 65536) ++ le16b (v / 65536 % 65536))).flatten
-    let (blks, _) := writeTable rawCodec bytes
-    let sz := blks.foldl (fun a b => a + 2 + b.stored.length) 0
-    s!"{head} id_count={superIdCount tbl} table_bytes={sz}"
+    let w := writeTableM rawCodec 0 bytes
+    s!"{head} id_count={superIdCount tbl} table_bytes={w.start}"
 
 def parseTbl (s : String) : Option (Option Sqfs.Finish.Tbl) :=
   if s == "-" then some none else
@@ -142,13 +201,20 @@ def opFinish (ws : List String) : String :=
 section Num
 open Sqfs.Numbering
 
-/-- spec → forest; returns the rest of the input after a `)` or at the end -/
+/-- leading decimal digits of the input (none: 0) and the rest -/
+def takeNum : Nat → List Char → Nat × List Char
+  | acc, c :: r => if '0' ≤ c ∧ c ≤ '9' then takeNum (acc * 10 + (c.toNat - 48)) r else (acc, c :: r)
+  | acc, [] => (acc, [])
+
+/-- spec → forest; returns the rest of the input after a `)` or at the end.  `h<k>` = hard link to the `k`-th `f` -/
 def parseForest : Nat → List Char → Option (List Tree × List Char)
   | 0, _ => none
   | _ + 1, [] => some ([], [])
   | _ + 1, ')' :: r => some ([], ')' :: r)
   | f + 1, 'f' :: r => (parseForest f r).map (fun (ts, r') => (Tree.file :: ts, r'))
-  | f + 1, 'h' :: r => (parseForest f r).map (fun (ts, r') => (Tree.hlink :: ts, r'))
+  | f + 1, 'h' :: r =>
+    let (k, r1) := takeNum 0 r
+    (parseForest f r1).map (fun (ts, r') => (Tree.hlink k :: ts, r'))
   | f + 1, '(' :: r =>
     match parseForest f r with
     | some (cs, ')' :: r1) => (parseForest f r1).map (fun (ts, r') => (Tree.dir cs :: ts, r'))
@@ -158,7 +224,7 @@ def parseForest : Nat → List Char → Option (List Tree × List Char)
 mutual
 def showT : NTree → String
   | .file n => toString n
-  | .hlink => "-"
+  | .hlink _ => "-"
   | .dir n cs => "(" ++ showL cs ++ ")" ++ toString n
 def showL : List NTree → String
   | [] => ""
@@ -166,48 +232,125 @@ def showL : List NTree → String
   | t :: r => showT t ++ " " ++ showL r
 end
 
+mutual
+def maxLinkT : NTree → Nat
+  | .file _ => 0
+  | .hlink k => k + 1
+  | .dir _ cs => maxLinkL cs
+def maxLinkL : List NTree → Nat
+  | [] => 0
+  | t :: r => max (maxLinkT t) (maxLinkL r)
+end
+
+/-- `num`: `fstree_post_process` (DFS numbering, then `reorder_hard_links`): the tree with the final inode numbers -/
 def opNum (spec : String) : String :=
   match parseForest (spec.length + 2) spec.toList with
   | some (cs, []) =>
     let r := numberRoot cs
-    s!"{showT r.1} count={r.2}"
+    if maxLinkT r.1 > (filesT r.1).length then "bad-op" else
+    let arr := postProcess cs
+    s!"{showT (renumT arr r.1)} count={r.2}"
   | _ => "bad-op"
 
 end Num
 
+section Names
+open Sqfs.C03FsDir
+
+/-- `names`: `fstree_add_generic` per name below one directory, then the children in list order and the link count -/
+def opNames (names : List (List UInt8)) : String :=
+  let step := fun (acc : Dir × List String) (n : List UInt8) =>
+    match addChild acc.1 n with
+    | .ok d => (d, "0" :: acc.2)
+    | .error .eexist => (acc.1, "EEXIST" :: acc.2)
+    | .error .emlink => (acc.1, "EMLINK" :: acc.2)
+  let (d, rcs) := names.foldl step ({}, [])
+  let order := if d.children.isEmpty then "-" else ",".intercalate (d.children.map toHexTok)
+  s!"rc={",".intercalate rcs.reverse} order={order} link={d.linkCount}"
+
+end Names
+
+section Inode
+open Sqfs.C03Inode
+
+/-- `fino`: a sequence of inode.c operations on a fresh file inode: S<size> B<start> F<idx>,<off> X<xattr> P<sparse>
+e (make_extended) b (make_basic) -/
+def inoStep (i : FileInode) (tok : String) : Option FileInode :=
+  let arg := (tok.drop 1).toString
+  match tok.toList.head? with
+  | some 'S' => arg.toNat?.map (fun v => setFileSize i (v % 18446744073709551616))
+  | some 'B' => arg.toNat?.map (fun v => setBlockStart i (v % 18446744073709551616))
+  | some 'X' => arg.toNat?.map (fun v => setXattr i (v % 4294967296))
+  | some 'P' => arg.toNat?.map (fun v => addSparse i (v % 4294967296))
+  | some 'F' => match (arg.splitOn ",").mapM String.toNat? with
+    | some [a, b] => some (setFragLocation i (a % 4294967296) (b % 4294967296))
+    | _ => none
+  | some 'e' => if arg.isEmpty then some (makeExtended i) else none
+  | some 'b' => if arg.isEmpty then some (makeBasic i) else none
+  | _ => none
+
+def opFino (toks : List String) : String :=
+  match toks.foldl (fun (acc : Option FileInode) t => acc.bind (fun i => inoStep i t)) (some fresh) with
+  | none => "bad-op"
+  | some (.basic st fi fo sz) => s!"basic start={st} size={sz} frag={fi},{fo}"
+  | some (.ext st sz sp nl fi fo x) => s!"ext start={st} size={sz} sparse={sp} nlink={nl} frag={fi},{fo} xattr={x}"
+
+end Inode
+
+def boolTok : String → Option Bool
+  | "0" => some false
+  | "1" => some true
+  | _ => none
+
 def opStep (line : String) : String :=
   match words line with
   | "finish" :: ws => opFinish ws
+  | ["pad", size, bs] =>
+    match size.toNat?, bs.toNat? with
+    | some sz, some b => if b = 0 then "bad-op" else s!"pad={Sqfs.Finish.padSize sz b} rc=0"
+    | _, _ => "bad-op"
   | ["num"] => opNum ""
   | ["num", spec] => opNum spec
+  | "fino" :: toks => opFino toks
+  | "names" :: ns =>
+    match ns.mapM fromHex with
+    | some names => if names.any (·.isEmpty) then "bad-op" else opNames names
+    | none => "bad-op"
   | "conseq" :: off :: ents =>
     match off.toNat?, ents.mapM parseEntConseq with
     | some o, some es => if es.isEmpty then "bad-op" else toString (conseqCount o es)
     | _, _ => "bad-op"
-  | op :: off0 :: hl :: xa :: par :: ents =>
-    if op == "dirw" || op == "dirwold" then
-      match off0.toNat?, hl.toNat?, xa.toNat?, par.toNat?, ents.mapM parseEntDirw with
-      | some o, some h, some x, some p, some es => opDirw (op == "dirwold") o h (x % 4294967296) (p % 4294967296) es
-      | _, _, _, _, _ => "bad-op"
-    else if op == "meta" then
-      match codecByName off0, (hl :: xa :: par :: ents).mapM fromHex with
-      | some c, some chunks => opMeta c chunks
-      | _, _ => "bad-op"
-    else if op == "ids" || op == "idsold" then
-      match (off0 :: hl :: xa :: par :: ents).mapM String.toNat? with
-      | some ids => opIds (if op == "ids" then limit else 0x10000) (ids.map (· % 4294967296)) false
-      | none => "bad-op"
-    else "bad-op"
-  | ["meta", c] => match codecByName c with
-    | some c => opMeta c []
-    | none => "bad-op"
-  | "meta" :: c :: chunks => match codecByName c, chunks.mapM fromHex with
+  | "dirw" :: off0 :: hl :: xa :: par :: ents =>
+    match off0.toNat?, hl.toNat?, xa.toNat?, par.toNat?, ents.mapM parseEntDirw with
+    | some o, some h, some x, some p, some es => opDirw false o h (x % 4294967296) (p % 4294967296) es
+    | _, _, _, _, _ => "bad-op"
+  | "dirwold" :: off0 :: hl :: xa :: par :: ents =>
+    match off0.toNat?, hl.toNat?, xa.toNat?, par.toNat?, ents.mapM parseEntDirw with
+    | some o, some h, some x, some p, some es => opDirw true o h (x % 4294967296) (p % 4294967296) es
+    | _, _, _, _, _ => "bad-op"
+  | "dirx" :: c :: keep :: exp :: off0 :: hl :: xa :: par :: rn :: rr :: ents =>
+    match codecByName c, boolTok keep, boolTok exp, [off0, hl, xa, par, rn, rr].mapM String.toNat?, ents.mapM parseEntDirw with
+    | some c, some k, some e, some [o, h, x, p, rn, rr], some es =>
+      opDirx c k e o h (x % 4294967296) (p % 4294967296) (rn % 4294967296) (rr % 18446744073709551616) es
+    | _, _, _, _, _ => "bad-op"
+  | ["table", c, base, h] =>
+    match codecByName c, base.toNat?, fromHex h with
+    | some c, some b, some d => opTable c b d
+    | _, _, _ => "bad-op"
+  | "meta" :: c :: chunks =>
+    match codecByName c, chunks.mapM fromHex with
     | some c, some chunks => opMeta c chunks
+    | _, _ => "bad-op"
+  | "metak" :: c :: chunks =>
+    match codecByName c, chunks.mapM fromHex with
+    | some c, some chunks => opMetaKeep c chunks
     | _, _ => "bad-op"
   | ["blk", c, fl, h] => match codecByName c, fl.toNat?, fromHex h with
     | some c, some f, some d =>
       let r := processBlock c ⟨f, d⟩
-      s!"{r.flags} {toHexTok r.data}"
+      let w := completedWords r
+      let tok := fun (o : Option Nat) => match o with | some v => toString v | none => "-"
+      s!"{r.flags} {toHexTok r.data} iw={tok w.1} fw={tok w.2}"
     | _, _, _ => "bad-op"
   | "ids" :: ids => match ids.mapM String.toNat? with
     | some ids => opIds limit (ids.map (· % 4294967296)) false
